@@ -388,7 +388,7 @@ def misuse_rules(facts, rep):
         "too-long": row(lambda p: decided(p, r"^Gt\(.*len\(.*, 65535\)") == 1),
         "truncated-header": row(lambda p: decided(p, r"^Lt\(.*len\(.*, 4\)") == 1),
         "zip64-id": row(lambda p: any(re.search(r"^ok\(ReadBytesExt::read_u16", a) and v == 1 for a, v in p["decisions"])),
-        "size-exceeds": row(lambda p: decided(p, r"^Gt\((\(ok\(ReadBytesExt::read_u16.* as usize\)|((From::from|Into::into)\()?ok\(ReadBytesExt::read_u16\([^,]*\)\)\)?), Sub\(") == 1 or _size_gt_remaining(p) or _size_checked_by_get(p)),
+        "size-exceeds": row(lambda p: decided(p, r"^Gt\((\(ok\(ReadBytesExt::read_u16.* as usize\)|((From::from|Into::into)\()?ok\(ReadBytesExt::read_u16\([^,]*\)\)\)?), Sub\(.*, 4\)\)$") == 1 or _size_gt_remaining(p) or _size_checked_by_get(p)),      # (what is left of the length taken before the 4 header bytes were read)
     }
     if "unreserved" not in facts.features:
         rows["reserved-low"] = row(lambda p: decided(p, r"^Le\(ok\(ReadBytesExt::read_u16.*, 31\)") == 1)
